@@ -96,12 +96,12 @@ def check_mvdr(run, A):
     for t in solves:
         a = strip_views(call_arg(t, 0))
         sym = None
-        if a.op == 'binop' and a.args[0] == 'Mult':
-            inner = [x for x in (strip_views(a.args[1]), strip_views(a.args[2])) if x.op == 'binop' and x.args[0] == 'Add']
+        if a.op in ('binop', 'iop') and a.args[0] == 'Mult':
+            inner = [x for x in (strip_views(a.args[1]), strip_views(a.args[2])) if x.op in ('binop', 'iop') and x.args[0] == 'Add']
             coef = [x for x in (a.args[1], a.args[2]) if const_val(x) == 0.5]
             sym = inner[0] if inner and coef else None
-        elif a.op == 'binop' and a.args[0] == 'Div' and const_val(a.args[2]) == 2:
-            sym = strip_views(a.args[1]) if strip_views(a.args[1]).op == 'binop' else None
+        elif a.op in ('binop', 'iop') and a.args[0] == 'Div' and const_val(a.args[2]) == 2:
+            sym = strip_views(a.args[1]) if strip_views(a.args[1]).op in ('binop', 'iop') else None
         exact = False
         if sym is not None:
             l, r = strip_views(sym.args[1]), strip_views(sym.args[2])
